@@ -74,6 +74,7 @@ Consume ==
          [] E.a = "CloseStart" -> AtTime /\ CloseStart
          [] E.a = "CloseDone" -> AtTime /\ CloseDone
          [] E.a = "CloseReturn" -> AtTime /\ CloseReturn
+         [] E.a = "CloseAgain" -> AtTime /\ CloseAgain /\ E.returned       \* a second Close returns at once
          [] E.a = "End" -> \* the run is over: every call has returned, the client is closed, no goroutine is left
                            /\ \A c \in Callers : cs[c].pc \in {"idle", "returned"}
                            /\ cl.closer = "returned" /\ lp.pc = "exited"
